@@ -358,7 +358,7 @@ fn main() {
             }
         }
     }));
-    let attach = script["attach"].as_bool().unwrap_or(false);
+    let mut attach = script["attach"].as_bool().unwrap_or(false);
     let mut ext_child: Option<std::process::Child> = None;
     let (d, rec, outp, pid) = if attach {
         // start the puppet natively (real ASLR); it waits in a pre-main gate (PUPPET_WAIT) for one byte on stdin
@@ -385,6 +385,7 @@ fn main() {
             use std::io::Read;
             let mut so = ch.stdout.take().unwrap();
             let buf = outp.stdout.clone();
+            let eofs = outp.reader_started();
             std::thread::spawn(move || {
                 let mut b = [0u8; 4096];
                 while let Ok(n) = so.read(&mut b) {
@@ -393,12 +394,16 @@ fn main() {
                     }
                     buf.lock().unwrap().extend_from_slice(&b[..n]);
                 }
+                eofs.fetch_add(1, std::sync::atomic::Ordering::SeqCst);
             });
         }
         ATTACHED_BIAS.store(probe::load_bias(pid.as_raw(), &elf), std::sync::atomic::Ordering::Relaxed);
         let rec = Recorder::default();
-        let (_r, w1) = os_pipe::pipe().unwrap();
-        let (_r2, w2) = os_pipe::pipe().unwrap();
+        // output of a process the debugger launches itself later on (restart of the attached program)
+        let (r1, w1) = os_pipe::pipe().unwrap();
+        let (r2, w2) = os_pipe::pipe().unwrap();
+        dbg::drain_more(r1, &outp, false);
+        dbg::drain_more(r2, &outp, true);
         let d = bugstalker::debugger::DebuggerBuilder::new()
             .with_hooks(rec.clone())
             .build_attached(pid, w1, w2)
@@ -483,6 +488,21 @@ fn main() {
                     cx.old_pids.push(cx.pid);
                 }
                 cx.pid = p as i32;
+                if attach {
+                    // the debugger has killed the attached process and launched the program itself: from here
+                    // on this is a launched program (no ASLR, quitting must leave nothing behind).  The old
+                    // process was a child of this harness: collect it (if the debugger's waits have not).
+                    if let Some(mut ch) = ext_child.take() {
+                        for _ in 0..200 {
+                            match ch.try_wait() {
+                                Ok(None) => std::thread::sleep(std::time::Duration::from_millis(10)),
+                                _ => break,
+                            }
+                        }
+                    }
+                    ATTACHED_BIAS.store(probe::load_bias(cx.pid, &cx.elf), std::sync::atomic::Ordering::Relaxed);
+                    attach = false;
+                }
             }
         }
         let hooks = cx.rec.take();
@@ -553,7 +573,7 @@ fn main() {
                 let _ = ch.wait();
             }
         }
-        std::thread::sleep(std::time::Duration::from_millis(30));
+        cx.out.wait_eof(std::time::Duration::from_secs(if code.is_some() { 10 } else { 1 }));
         out.emit(&json!({"ev": "released", "proc_state": st, "tasks": tasks, "patched": patched, "dr7": dr7,
             "exit_code": code, "stdout": cx.out.stdout_string()}));
         out.emit(&json!({"ev": "end", "stdout": cx.out.stdout_string(), "stderr": cx.out.stderr_string()}));
@@ -566,7 +586,10 @@ fn main() {
         out.emit(&json!({"ev": "teardown", "ok": r.is_ok(), "panic": r.err(),
             "proc_state": probe::process_state(cx.pid)}));
     }
-    std::thread::sleep(std::time::Duration::from_millis(30));
+    // everything the program wrote is in the pipes; read them to their end (the writers are gone once the
+    // program has exited and the debugger is dropped) instead of trusting the scheduler
+    let gone = probe::process_state(cx.pid).is_none();
+    cx.out.wait_eof(std::time::Duration::from_secs(if gone { 10 } else { 1 }));
     out.emit(&json!({"ev": "end", "stdout": cx.out.stdout_string(), "stderr": cx.out.stderr_string()}));
     // never leave a debuggee behind
     unsafe { libc::kill(cx.pid, libc::SIGKILL) };
